@@ -144,6 +144,11 @@ impl SnmpSocket for SnmpV2cClientSocket {
         if !pdu.check(&self.request_id) {
             return None;
         }
+        // Report PDUs belong to SNMPv3 and bypass the request id check,
+        // so they can never be a reply to a community-based request
+        if let SnmpPdu::Report(_) = pdu {
+            return None;
+        }
         Some(pdu)
     }
 }
